@@ -6,7 +6,11 @@ name, obfuscation switches, per-spec exemptions, allow-list, width mode) x entry
 (clean_content on a list, on single strings, clean_file, ContentProvider.write under HostContext)
 x how the cleaner learns the machine's name (handed in | worked out by the cleaner itself from the
 operating system's look-ups, which are emulated for a machine of that name - the way every caller in
-the repository builds it) x spelling of the name (lower case | capitals in the short name / the domain).
+the repository builds it) x spelling of the name (lower case | capitals in the short name / the domain)
+x how the user's configuration reaches the cleaner (as a dictionary | written down as the text of remove.conf /
+file-content-redaction.yaml in one of the spellings the format defines as equivalent and loaded by the client's
+own loader) x line-ending convention of a spec file read from disk (LF | CRLF | CR | mixed; clean_file and
+TextFileProvider).
 
 Oracle: non-leak predicates on the output *after masking every substitute the cleaner reports
 having issued* (mapping() of each obfuscator + the password mask):
@@ -23,6 +27,8 @@ having issued* (mapping() of each obfuscator + the password mask):
 "Claimed" (textgen.claimed) = well-formed and not glued to characters of the token's own syntax;
 everything else is counted under an `unclaimed:*` label and not asserted (DESIGN C08 X)."""
 import contextlib
+import json
+import logging
 import os
 import re
 import shutil
@@ -46,7 +52,16 @@ RULE = ("tagged lines built from delimited tokens (IPv4 incl. textual prefix/suf
         "{system name handed to the cleaner | not handed in: socket.gethostname/getfqdn/gethostbyname_ex emulated for "
         "a machine of that name (23 configurations: short or full `hostname`, resolver entry / none / loopback "
         "alias), optional display_name in the configuration} x {name spelt in lower case | capitals in the short "
-        "name and/or the domain, the same spelling in configuration, look-ups and content}. "
+        "name and/or the domain, the same spelling in configuration, look-ups and content} x "
+        "{configuration handed over as a dictionary | rendered as /etc/insights-client/remove.conf (key delimiter, "
+        "blanks/tabs around commas, continuation lines, comment lines, further keys, key order, CRLF, missing final "
+        "newline) | rendered as file-content-redaction.yaml (+ optional file-redaction.yaml; single-/double-quoted/"
+        "plain scalars, block/flow sequences, regex as block or flow mapping, comments, '---', empty keys, CRLF) and "
+        "loaded with InsightsUploadConf.get_rm_conf(); keywords carry symbols that mean something to these formats "
+        "(# ; quotes = : , backslash brackets ...), plain patterns are slices of the content (tags contain '#')} x "
+        "{for the entry points that read a file from disk - clean_file, TextFileProvider(...).write - the file's line "
+        "terminators: LF | CRLF | lone CR | a mixture, with / without a terminator after the last line; regex "
+        "patterns anchored with '$' / '^' to the true end / start of a line}. "
         "Non-trivial: >= 1 claimed token whose class is enabled and (>= 2 token classes on one line, or a token at "
         "line start/end, or a repeated token, or two IPs where one is a textual prefix/suffix of the other, or a "
         "keyword inside a host name, or a line that had to be redacted next to one that had to stay); distinct by "
@@ -59,7 +74,16 @@ ASSUMPTIONS = [
     "an occurrence is 'recognised' only if it is well formed and delimited as described in DESIGN.md C08 X "
     "(textgen.claimed)",
     "the configuration object only needs the attributes obfuscate, obfuscate_hostname, obfuscate_ipv6, "
-    "obfuscate_mac (+ display_name) (types.SimpleNamespace stands in for InsightsConfig)",
+    "obfuscate_mac (+ display_name) (types.SimpleNamespace stands in for InsightsConfig; when the configuration "
+    "is loaded from files a real InsightsConfig is used for loader and cleaner, except for the switch combination "
+    "it refuses: obfuscate_hostname without obfuscate)",
+    "a configuration file means what the format's reference reader says it means: configparser.RawConfigParser + "
+    "'split at commas, strip' for remove.conf (the documented legacy format), PyYAML's safe_load for the YAML "
+    "files; the harness checks its own rendering against that reading before the client's loader sees the file, "
+    "and a loader that raises on such a file is reported (nothing configured reaches the cleaner)",
+    "a line of a spec file is what stands between two line terminators (LF, CRLF or a lone CR - universal "
+    "newlines, the way the unchanged clean_file / TextFileProvider read a file); the terminator is not part of "
+    "the line a pattern is matched against",
     "when no name is handed to the cleaner, 'the system's host name' is what the machine's own look-ups "
     "(socket.gethostname / getfqdn / gethostbyname_ex, replaced by stubs for the duration of a case) report; every "
     "look-up answers with the machine's full name, (gethostname only) its short name, a loopback alias or a "
@@ -71,12 +95,20 @@ EXCLUDED = [
     "host name glued to another label character ([A-Za-z0-9_.-]); upper-/mixed-case variants of the system "
     "name; the bare domain without a host label",
     "secrets containing characters outside the masker's class; Password/PASSWORD keys; separators other than "
-    "those of the masker's first expression",
+    "those of the masker's first expression; secrets made of '=' characters only (indistinguishable from the "
+    "masker's separator '=+')",
     "width-preserving mode on lines that are not netstat-shaped (an address not followed by column padding: the "
     "mode deletes/insert characters after the address and indexes past the end of an unpadded line)",
     "fabricated-address scan is skipped when an original lies in 10.230.0.0/16 (substitute range; chained "
     "str.replace there is finding #7, property C09)",
     "empty keyword, keywords with surrounding blanks, exclusion patterns containing a newline",
+    "remove.conf entries the legacy format cannot express or does not document: a comma inside an entry, leading/"
+    "trailing blanks, a backslash (the loader decodes escape sequences; no spelling of a literal backslash is "
+    "documented), blank characters other than space / tab (NBSP, ...: an entry is stripped), regex patterns (YAML only)",
+    "YAML spellings outside the conservative subset rendered here: block scalars, anchors/aliases/tags, multi-line "
+    "flow scalars, unquoted entries with indicator characters",
+    "form feed / vertical tab / NEL / U+2028 inside a line (str.splitlines would split there, universal newlines "
+    "does not); a file with an empty line; LF followed by CR",
     "operating-system configurations in which the look-ups disagree about the machine's name: a spelling that "
     "differs in letter case between look-ups / from the content (X: case variants of the system name), a canonical "
     "name (gethostbyname_ex) that is the *short* name while getfqdn() knows a longer one (/etc/hosts listing the "
@@ -85,6 +117,7 @@ EXCLUDED = [
 ]
 
 MASK = "\x00"
+FORMAT_CHARS = "#;\"'=:,\\[]{}"       # characters that mean something to the INI / YAML formats the configuration is written in
 OBF_NAMES = ["hostname", "ip", "ipv6", "keyword", "mac", "password"]
 REAL_NO_OBF = [["hostname", "ip", "ipv6", "mac"], ["hostname"], ["ip", "ipv6", "mac"], ["password"],
                ["hostname", "ip"], ["hostname", "ip", "ipv6"], ["hostname", "ip", "ipv6", "mac", "password"],
@@ -122,17 +155,34 @@ def selftest():
     assert w["fqdn"] == "WebKEY01.Int.Big-co.Io" and w["hosts"] == ["db.x_1.Int.Big-co.Io"], w
     w = recase_world({"fqdn": "vm", "hosts": []}, "upper", "tld")
     assert w["fqdn"] == "VM" and w["hosts"] == [], w
+    # the configuration files: the text is what the entries mean in the format, whatever the style
+    assert rm_admissible("R&D#7") and rm_admissible('a"b c;d') and not rm_admissible("a,b") and not rm_admissible(" a") \
+        and not rm_admissible("a\\b") and not rm_admissible("")
+    assert rm_admit(" ab ,c") == "ab" and rm_admit("\\x") == "zzqx" and rm_admit("#7# x\\y") == "#7# x"
+    t = render_remove_conf(["G#H", ";IJ"], ["#7#", "x y"], {"delim": " = ", "seps": ["cont"], "order": 1, "extras": ["files"],
+                                                           "comments": True, "eol": "\r\n", "trail": True})
+    assert t == ("# what the client must not send (zq)\r\n[remove]\r\npatterns = #7#,\r\n    x y  \r\n; added later\r\n"
+                 "files = /etc/zq/not-there.conf,/etc/zq/other  \r\nkeywords = G#H\r\n  ,;IJ  \r\n"), t
+    assert independent_reading({"remove.conf": t}) == {"keywords": ["G#H", ";IJ"], "patterns": ["#7#", "x y"]}
+    assert [yaml_scalar(e, q) for e, q in (("NO", "plain"), ("it's", "single"), ('a"\\d', "double"), ("a\\d+ b$", "plain"),
+                                           ("G#H", "plain"), ("G?H", "plain"))] == \
+        ["'NO'", "'it''s'", '"a\\"\\\\d"', "a\\d+ b$", "'G#H'", "'G?H'"]
+    t = render_yaml(["NO", "G: H"], {"mode": "regex", "items": ["up$", "^a b"]},
+                    {"quote": ["plain", "double"], "layout": "block2", "order": 1, "comments": True, "doc_start": True})
+    assert t == ("---\n# Insights content redaction (zq)\npatterns:\n  regex:\n    - up$\n    - \"^a b\"\nkeywords:\n"
+                 "  - 'NO'   # zq: asked for by security\n  - \"G: H\"\n"), t
+    assert independent_reading({"file-content-redaction.yaml": t}) == {"keywords": ["NO", "G: H"], "patterns": {"regex": ["up$", "^a b"]}}
+    assert render_yaml([], None, {"null_empty": True, "layout": "flow"}) == "keywords:\npatterns:\n"
+    assert file_text({"eols": ["\r\n", "\r"], "final_newline": False}, ["a", "b", "c"]) == "a\r\nb\rc"
+    assert split_lines("a\r\nb\rc\n") == ["a", "b", "c"] and split_lines("a\n\nb") == ["a", "", "b"]
     # the masking step: a substitute hides exactly itself
     assert _mask_line("x 10.230.230.1 10.230.230.15 y", ["10.230.230.1"], []) == "x \x00 10.230.230.15 y"
 
 
 # ---- running the code under test ------------------------------------------------------------------
 
-def build_cleaner(case):
-    from insights.cleaner import Cleaner
-    o = case["obf"]
-    cfg = SimpleNamespace(obfuscate=o["obfuscate"], obfuscate_hostname=o["hostname"],
-                          obfuscate_ipv6=o["ipv6"], obfuscate_mac=o["mac"])
+def configured(case):
+    """the user's configuration as the dictionary the loaders are documented to hand to the cleaner"""
     rm = {}
     if case.get("keywords"):
         rm["keywords"] = list(case["keywords"])
@@ -142,6 +192,243 @@ def build_cleaner(case):
             rm["patterns"] = list(pat["items"])
         else:
             rm["patterns"] = {"regex": [i["conf"] for i in pat["items"]]}
+    return rm
+
+
+# ---- the user's configuration as the files the client reads it from ---------------------------------------
+#
+# case["conf_via"] = None (the dictionary is handed to the cleaner) or {"format": "remove.conf" | "yaml",
+# "style": {...}}: the configured entries (case["keywords"], case["patterns"]) are written down as the text of
+# /etc/insights-client/remove.conf (legacy INI) or file-content-redaction.yaml (+ optionally a
+# file-redaction.yaml next to it), loaded with the client's own loader (InsightsUploadConf.get_rm_conf(), the
+# way insights.client.client.collect() and InsightsConnection._clean_facts() do) and the cleaner is built from
+# what the loader returns.  The *style* only chooses between spellings the format defines as equivalent
+# (blanks around delimiters, continuation lines, comments, quoting style, block/flow collections, line
+# endings); the text is a pure function of (entries, style) - conf_files() - and is checked against an
+# independent reading (configparser / yaml.safe_load of the text itself) before the loader sees it, so a
+# hand-written style can never make the check configure something else than case["keywords"/"patterns"].
+
+RM_SEPS = {"tight": ",", "blank": ", ", "wide": " , ", "tab": ",\t", "cont": ",\n    ", "cont-tab": ",\n\t",
+           "cont-comma-first": "\n  ,"}
+RM_DELIMS = ["=", " = ", ":", ": ", " =\t"]
+_YAML_WORDS = frozenset(["yes", "no", "on", "off", "true", "false", "null", "y", "n"])
+# entries a user can write without quotes in block and in flow collections alike (conservative: starts with a
+# letter, none of the indicator characters , : # ? [ ] { } & ' " ` and no word YAML 1.1 resolves to a boolean / null)
+_YAML_PLAIN = re.compile(r"[A-Za-z][A-Za-z0-9_./\\+=^$~@%!*|()-]*(?: [A-Za-z0-9_./\\+=^$~@%!*|()-]+)*\Z")
+
+
+def rm_admissible(entry):
+    """an entry the legacy remove.conf can express: the value of a key is split at every comma and each piece
+    is stripped; backslash sequences are decoded in a way nothing documents; a value is one logical line"""
+    return bool(entry) and entry == entry.strip() and not any(c in entry for c in ",\\\r\n") \
+        and all(_rm_char(c) for c in entry)
+
+
+def _rm_char(c):
+    """printable ASCII, tab, or a printable non-blank character of any other script"""
+    return " " <= c <= "~" or c == "\t" or (ord(c) > 0xA0 and c.isprintable() and not c.isspace())
+
+
+def rm_admit(entry, fallback="zzqx"):
+    """cut an arbitrary printable string down to an admissible entry (generator side: construction, not rejection)"""
+    cut = re.split(r"[,\\\r\n]", entry)[0].strip()
+    cut = "".join(c for c in cut if _rm_char(c)).strip()
+    return cut or fallback
+
+
+def render_remove_conf(keywords, patterns, style):
+    seps = style.get("seps") or ["tight"]
+    delim = style.get("delim", "=")
+    n = [0]
+
+    def value(entries):
+        out = entries[0]
+        for e in entries[1:]:
+            sep = seps[n[0] % len(seps)]
+            n[0] += 1
+            if sep in ("cont", "cont-tab") and e[0] in "#;":
+                sep = "cont-comma-first"       # a continuation line starting with '#' / ';' is a comment line
+            out += RM_SEPS[sep] + e
+        return out
+
+    keys = []
+    if keywords:
+        keys.append(("keywords", value(keywords)))
+    if patterns:
+        keys.append(("patterns", value(patterns)))
+    for extra in style.get("extras") or []:
+        keys.append({"files": ("files", "/etc/zq/not-there.conf,/etc/zq/other"),
+                     "commands": ("commands", "/bin/zq-not-there")}[extra])
+    if keys:
+        k = style.get("order", 0) % len(keys)
+        keys = keys[k:] + keys[:k]
+    out = []
+    if style.get("comments"):
+        out.append("# what the client must not send (zq)")
+    out.append("[remove]")
+    for i, (key, val) in enumerate(keys):
+        if style.get("comments") and i == 1:
+            out.append("; added later")
+        out.append(key + delim + val + ("  " if style.get("trail") else ""))
+    text = "\n".join(out) + ("\n" if style.get("final_newline", True) else "")
+    return text.replace("\n", style.get("eol", "\n"))
+
+
+def yaml_scalar(entry, quote):
+    if quote == "plain" and _YAML_PLAIN.match(entry) and entry.lower() not in _YAML_WORDS:
+        return entry
+    if quote == "double":
+        return json.dumps(entry, ensure_ascii=False)   # a JSON string is a YAML double-quoted scalar
+    return "'" + entry.replace("'", "''") + "'"
+
+
+def render_yaml(keywords, patterns, style):
+    """text of file-content-redaction.yaml; patterns = None | {"mode": "plain"|"regex", "items": [str]}"""
+    quotes = style.get("quote") or ["single"]
+    layout = style.get("layout", "block0")
+    n = [0]
+    note = [bool(style.get("comments"))]
+
+    def sc(e):
+        s = yaml_scalar(e, quotes[n[0] % len(quotes)])
+        n[0] += 1
+        return s
+
+    def seq(head, items, indent):
+        if layout == "flow":
+            return [head + " [" + ", ".join(sc(i) for i in items) + "]"]
+        pad = " " * (indent + (2 if layout == "block2" else 0))
+        rows = [pad + "- " + sc(i) for i in items]
+        if note[0]:
+            rows[0] += "   # zq: asked for by security"
+            note[0] = False
+        return [head] + rows
+
+    blocks = {}
+    if keywords:
+        blocks["keywords"] = seq("keywords:", keywords, 0)
+    elif style.get("null_empty"):
+        blocks["keywords"] = ["keywords:"]
+    if patterns and patterns["mode"] == "plain":
+        blocks["patterns"] = seq("patterns:", patterns["items"], 0)
+    elif patterns:
+        if style.get("regex_layout") == "flowmap":
+            blocks["patterns"] = ["patterns: {regex: [" + ", ".join(sc(i) for i in patterns["items"]) + "]}"]
+        else:
+            blocks["patterns"] = ["patterns:"] + seq("  regex:", patterns["items"], 2)
+    elif style.get("null_empty"):
+        blocks["patterns"] = ["patterns:"]
+    order = ["keywords", "patterns"] if style.get("order", 0) % 2 == 0 else ["patterns", "keywords"]
+    out = []
+    if style.get("doc_start"):
+        out.append("---")
+    if style.get("comments"):
+        out.append("# Insights content redaction (zq)")
+    for k in order:
+        out.extend(blocks.get(k, []))
+    if not out or out == ["---"]:
+        out.append("# nothing configured")
+    return ("\n".join(out) + "\n").replace("\n", style.get("eol", "\n"))
+
+
+REDACTION_FILE_TEXT = {"commands": "commands:\n- /bin/zq-not-there\nfiles:\n- /etc/zq/not-there.conf\n",
+                       "empty": "# nothing is skipped\n"}
+
+
+def conf_files(case):
+    """-> {file name: text}; {} when the dictionary is handed to the cleaner"""
+    via = case.get("conf_via")
+    if not via:
+        return {}
+    style = via.get("style") or {}
+    kws = list(case.get("keywords") or [])
+    pat = case.get("patterns")
+    if via["format"] == "remove.conf":
+        if pat and pat["mode"] != "plain":
+            raise ValueError("remove.conf has no regex mode")
+        return {"remove.conf": render_remove_conf(kws, list(pat["items"]) if pat else [], style)}
+    if via["format"] == "yaml":
+        ypat = {"mode": pat["mode"], "items": [i if pat["mode"] == "plain" else i["conf"] for i in pat["items"]]} if pat else None
+        files = {"file-content-redaction.yaml": render_yaml(kws, ypat, style)}
+        if style.get("redaction_file"):
+            files["file-redaction.yaml"] = REDACTION_FILE_TEXT[style["redaction_file"]]
+        return files
+    raise ValueError("unknown configuration format %r" % (via["format"],))
+
+
+def independent_reading(files):
+    """what the text means according to the format's own reference reader (configparser from the standard
+    library / PyYAML - both outside the code under test): {"keywords": [...], "patterns": [...] | {"regex": [...]}}"""
+    got = {}
+    if "remove.conf" in files:
+        from six.moves import configparser
+        cp = configparser.RawConfigParser()
+        cp.read_string(re.sub(r"\r\n|\r", "\n", files["remove.conf"]))
+        for k in ("keywords", "patterns"):
+            if cp.has_option("remove", k):
+                got[k] = [v.strip() for v in cp.get("remove", k).split(",")]
+    if "file-content-redaction.yaml" in files:
+        import yaml
+        doc = yaml.safe_load(files["file-content-redaction.yaml"]) or {}
+        for k in ("keywords", "patterns"):
+            if doc.get(k):
+                got[k] = doc[k]
+    return got
+
+
+def load_configuration(case, cfg_kwargs):
+    """-> (config object for the loader, what the client's loader returns for the files of this case)"""
+    from insights.client.collection_rules import InsightsUploadConf
+    from insights.client.config import InsightsConfig
+    files = conf_files(case)
+    want = configured(case)
+    got = independent_reading(files)
+    if got != want:
+        raise AssertionError("harness: the rendered configuration files do not say what the case configures: "
+                             "%r != %r in %r" % (got, want, files))
+    for e in (want.get("keywords") or []) + (want["patterns"] if isinstance(want.get("patterns"), list) else []):
+        if "remove.conf" in files and not rm_admissible(e):
+            raise AssertionError("harness: remove.conf cannot express the entry %r" % (e,))
+    d = tempfile.mkdtemp(prefix="vp-c08-conf-")
+    lg = logging.getLogger("insights.client.collection_rules")
+    level = lg.level
+    try:
+        for name, text in files.items():
+            path = os.path.join(d, name)
+            with open(path, "wb") as f:
+                f.write(text.encode("utf-8"))
+            os.chmod(path, 0o600)
+        lg.setLevel(logging.CRITICAL + 1)           # "remove.conf is deprecated" on every case
+        cfg = InsightsConfig(remove_file=os.path.join(d, "remove.conf"),
+                             redaction_file=os.path.join(d, "file-redaction.yaml"),
+                             content_redaction_file=os.path.join(d, "file-content-redaction.yaml"),
+                             tags_file=os.path.join(d, "tags.yaml"), **cfg_kwargs)
+        try:
+            return cfg, InsightsUploadConf(cfg).get_rm_conf()
+        except Exception as e:                      # noqa - whatever it is, it is not documented for this input
+            # (core reports an unexpected exception of the code under test as a violation only when the innermost
+            # frame lies in /repo; the loader's helpers are standard-library parsers)
+            raise Violation("the client's loader fails on a configuration its format admits (%s: %s): nothing of "
+                            "what the user configured reaches the cleaner" % (type(e).__name__, e),
+                            configuration_files=files, configured=want)
+    finally:
+        lg.setLevel(level)
+        shutil.rmtree(d, ignore_errors=True)
+
+
+def build_cleaner(case):
+    from insights.cleaner import Cleaner
+    o = case["obf"]
+    switches = dict(obfuscate=o["obfuscate"], obfuscate_hostname=o["hostname"], obfuscate_ipv6=o["ipv6"],
+                    obfuscate_mac=o["mac"])
+    cfg = SimpleNamespace(**switches)
+    rm = configured(case)
+    if case.get("conf_via"):
+        # InsightsConfig refuses obfuscate_hostname without obfuscate; that combination keeps the stand-in
+        valid = o["obfuscate"] or not o["hostname"]
+        loader_cfg, rm = load_configuration(case, switches if valid else {})
+        if valid:
+            cfg = loader_cfg                         # one configuration object for loader and cleaner, as in the client
     ns = case.get("name_source")
     if not ns:
         return Cleaner(cfg, rm, case["fqdn"])
@@ -213,6 +500,44 @@ def emulated_os(case):
         socket.gethostname, socket.getfqdn, socket.gethostbyname_ex = saved
 
 
+EOLS = ["\n", "\r\n", "\r"]
+_DOLLAR = re.compile(r"(?<!\\)\$(?:\||\)|\Z)")         # a '$' anchor (labels only)
+_CARET = re.compile(r"(?:\A|\||\()\^")
+_EOL = re.compile(r"\r\n|\r|\n")
+
+
+def file_text(case, lines):
+    """the spec's content as a file on disk: every line followed by the terminator its position selects from
+    case["eols"] (Unix LF, DOS CRLF, old Mac CR - also mixed in one file); the last one only with final_newline"""
+    eols = case.get("eols") or ["\n"]
+    out = []
+    for i, l in enumerate(lines):
+        out.append(l)
+        if i < len(lines) - 1 or case.get("final_newline", True):
+            out.append(eols[i % len(eols)])
+    return "".join(out)
+
+
+def split_lines(text):
+    """lines of a cleaned file without their terminators, whatever convention the file uses"""
+    out = _EOL.split(text)
+    if out and out[-1] == "":
+        out.pop()
+    return out
+
+
+def _read(path):
+    with open(path, "rb") as f:
+        return f.read().decode("utf-8")
+
+
+def _write(path, text):
+    if not os.path.isdir(os.path.dirname(path)):
+        os.makedirs(os.path.dirname(path))
+    with open(path, "wb") as f:
+        f.write(text.encode("utf-8"))
+
+
 def run_entry(case, cleaner, lines):
     """-> list of output lines (without line terminators)"""
     entry = case["entry"]
@@ -238,32 +563,45 @@ def run_entry(case, cleaner, lines):
     try:
         if entry == "file":
             path = os.path.join(d, "netstat_-neopa" if width else "spec.txt")
-            with open(path, "w") as f:
-                f.write("\n".join(lines) + ("\n" if case.get("final_newline", True) else ""))
+            _write(path, file_text(case, lines))
             cleaner.clean_file(path, no_obfuscate=no_obf, no_redact=no_red,
                                allowlist=dict(allow) if allow is not None else None)
             if not os.path.exists(path):
                 return []
-            with open(path) as f:
-                text = f.read()
-            out = text.split("\n")
-            if out and out[-1] == "":
-                out.pop()
-            return out
-        if entry == "write":
+            return split_lines(_read(path))
+        if entry in ("write", "textfile"):
+            from insights.core import filters as core_filters
             from insights.core.context import HostContext
             from insights.core.exceptions import ContentException
-            from insights.core.spec_factory import DatasourceProvider
+            from insights.core.spec_factory import DatasourceProvider, TextFileProvider
             rel = "insights_commands/netstat_-neopa" if width else "etc/vp/spec.conf"
-            p = DatasourceProvider(list(lines), relative_path=rel, root=d, ctx=HostContext(), cleaner=cleaner,
-                                   no_obfuscate=no_obf, no_redact=no_red)
             dst = os.path.join(d, "out", rel)
+            if entry == "write":
+                p = DatasourceProvider(list(lines), relative_path=rel, root=d, ctx=HostContext(), cleaner=cleaner,
+                                       no_obfuscate=no_obf, no_redact=no_red)
+                try:
+                    p.write(dst)
+                except ContentException:
+                    return []
+                return split_lines(_read(dst))
+            # a file of the machine collected through the provider of simple_file()/glob_file() specs: the
+            # provider reads it from disk itself (so the file's line-ending convention is its business)
+
+            def ds(broker):                       # stands for the spec's datasource: carries its exemptions
+                return None
+            ds.no_obfuscate, ds.no_redact = no_obf, no_red
+            root = os.path.join(d, "root")
+            _write(os.path.join(root, rel), file_text(case, lines))
+            cached = ds in core_filters._CACHE
             try:
+                p = TextFileProvider(rel, root=root, ds=ds, ctx=HostContext(), cleaner=cleaner)
                 p.write(dst)
             except ContentException:
                 return []
-            with open(dst) as f:
-                return f.read().split("\n")
+            finally:
+                if not cached:
+                    core_filters._CACHE.pop(ds, None)
+            return split_lines(_read(dst))
         raise ValueError("unknown entry %r" % (entry,))
     finally:
         shutil.rmtree(d, ignore_errors=True)
@@ -323,8 +661,18 @@ def _pattern_hits(case, lines):
     return res
 
 
+def _non_ascii(text):
+    return any(ord(c) > 127 for c in text)
+
+
 def check_clean(case):
     lines = tg.render(case["lines"])
+    # clean_file, the INI parser and the YAML loader open their files in the locale's encoding; the harness writes
+    # UTF-8.  Non-ASCII text on such a path is only meaningful in a UTF-8 locale (Python's UTF-8 mode included)
+    import locale
+    if locale.getpreferredencoding(False).lower().replace("-", "") != "utf8":
+        if (case["entry"] == "file" and _non_ascii("".join(lines))) or _non_ascii("".join(conf_files(case).values())):
+            return {"nontrivial": False, "labels": ["skipped:non-ascii-file-in-a-non-utf8-locale"]}
     with emulated_os(case):
         cleaner = build_cleaner(case)
         if case.get("prelude"):
@@ -348,6 +696,34 @@ def check_clean(case):
     }
     labels = set(["entry=" + case["entry"]])
     details = dict(input=lines, output=out, no_obfuscate=sorted(no_obf), switches=obf, fqdn=case["fqdn"])
+    via = case.get("conf_via")
+    if via:
+        details["configuration_files"] = conf_files(case)
+        details["configured"] = configured(case)
+        labels.add("conf=" + via["format"])
+        for k, v in sorted((via.get("style") or {}).items()):
+            if k in ("layout", "regex_layout", "redaction_file", "eol", "comments", "null_empty") and v:
+                labels.add("conf:%s:%s=%s" % (via["format"], k, {"\n": "lf", "\r\n": "crlf"}.get(v, v)))
+            elif k in ("seps", "quote"):
+                labels.update("conf:%s:%s=%s" % (via["format"], k, x) for x in v)
+    else:
+        labels.add("conf=dict")
+    for k in case.get("keywords") or []:
+        labels.update("keyword-with:" + c for c in k if c in FORMAT_CHARS)
+        labels.update("keyword-with-sequence:%r" % q for q in (" #", " ;", ": ", ", ", " - ", "# ") if q in k)
+        if any(ord(c) > 127 for c in k):
+            labels.add("keyword:non-ascii" + (":" + via["format"] if via else ""))
+    if case.get("patterns") and any(ord(c) > 127 for i in case["patterns"]["items"]
+                                    for c in (i if case["patterns"]["mode"] == "plain" else i["conf"])):
+        labels.add("pattern:non-ascii" + (":" + via["format"] if via else ""))
+    non_lf = False
+    if case["entry"] in ("file", "textfile"):
+        used = sorted(set((case.get("eols") or ["\n"])[i % len(case.get("eols") or ["\n"])] for i in range(
+            len(lines) if case.get("final_newline", True) else len(lines) - 1)))
+        names = [{"\n": "lf", "\r\n": "crlf", "\r": "cr"}[e] for e in used]
+        labels.add("eol=" + ("+".join(names) if names else "none(single unterminated line)"))
+        non_lf = any(e != "\n" for e in used)
+        details["file_content"] = file_text(case, lines)
     ns = case.get("name_source")
     if ns:
         gh, fq, ex = os_answers(case["fqdn"], ns)
@@ -385,6 +761,12 @@ def check_clean(case):
         elif h:
             dropped_required += 1
             labels.add("pattern:%s:line-redacted" % case["patterns"]["mode"])
+            if case["patterns"]["mode"] == "regex":
+                hit = [i["ref"] for i in case["patterns"]["items"] if re.search(i["ref"], l)]
+                if all(_DOLLAR.search(r) for r in hit):
+                    labels.add("pattern:regex:line-redacted-only-by-$-pattern" + (":file-not-lf" if non_lf else ""))
+                if all(_CARET.search(r) for r in hit):
+                    labels.add("pattern:regex:line-redacted-only-by-^-pattern")
             if ln["tag"] in out_tags:
                 raise Violation("a line containing a configured exclusion pattern survived cleaning",
                                 line=l, patterns=case["patterns"], **details)
@@ -439,6 +821,11 @@ def check_clean(case):
             continue
         if not on["password"]:
             labels.add("exempt:password")
+            continue
+        if set(secret) == set("="):
+            # "password====": the masker's separator is '=+' - where the separator ends and a secret made of '='
+            # only begins is not defined (observed: "password===********", the last '=' is taken for the secret)
+            labels.add("ambiguous:secret-of-equals-signs-only")
             continue
         labels.add("class:pw")
         for o, m in zip(out, masked):
@@ -564,7 +951,8 @@ def check_clean(case):
     nontrivial = (bool(active) and (multi or edge or repeated or prefix_pair or kw_in_host)) or mixed_redact
     key = {"lines": lines, "entry": case["entry"], "obf": obf, "no_obf": sorted(no_obf), "kw": kws,
            "pat": case.get("patterns"), "nr": bool(case.get("no_redact")), "al": case.get("allowlist"),
-           "w": bool(case.get("width")), "fqdn": case["fqdn"], "ns": case.get("name_source")}
+           "w": bool(case.get("width")), "fqdn": case["fqdn"], "ns": case.get("name_source"),
+           "via": case.get("conf_via"), "eols": case.get("eols") if case["entry"] in ("file", "textfile") else None}
     return {"nontrivial": nontrivial, "labels": sorted(labels), "key": key}
 
 
@@ -626,15 +1014,30 @@ def _atom(draw, ch):
 
 @st.composite
 def _regex_item(draw, rendered):
-    mode = draw(st.sampled_from(["slice", "slice", "slice", "word", "nomatch"]))
+    # slice = any stretch of a line; suffix / prefix = the line's last / first characters (what a user anchors
+    # with '$' / '^': "lines ending in ...", "lines starting with ...")
+    mode = draw(st.sampled_from(["slice", "suffix", "slice", "suffix", "prefix", "slice", "word", "nomatch"]))
     at_start = at_end = False
-    if mode == "slice":
+    sliced = mode in ("slice", "suffix", "prefix")
+    if sliced:
         l = draw(st.sampled_from(rendered))
-        i = draw(st.integers(0, max(len(l) - 1, 0)))
         n = draw(st.sampled_from([2, 3, 4, 5, 6, 1]))
-        rep = [k for k in range(i + 1, min(i + 9, len(l))) if l[k] == l[i]] if i < len(l) else []
-        if rep and draw(tg.die(3)) == 0:
-            n = rep[0] - i + 1 + draw(st.integers(0, 2))       # a slice whose first character recurs
+        if mode == "suffix":
+            i = max(len(l) - n, 0)
+            rep = [k for k in range(max(len(l) - 9, 0), len(l) - 1) if l[k] in l[k + 1:]]
+            if rep and draw(tg.die(3)) == 0:
+                i = rep[-1]                                        # ... whose first character recurs ("#7#" at the end)
+                n = len(l) - i
+        elif mode == "prefix":
+            i = 0
+            rep = [k for k in range(1, min(9, len(l))) if l[k] == l[0]]
+            if rep and draw(tg.die(3)) == 0:
+                n = rep[0] + 1 + draw(st.integers(0, 2))
+        else:
+            i = draw(st.integers(0, max(len(l) - 1, 0)))
+            rep = [k for k in range(i + 1, min(i + 9, len(l))) if l[k] == l[i]] if i < len(l) else []
+            if rep and draw(tg.die(3)) == 0:
+                n = rep[0] - i + 1 + draw(st.integers(0, 2))       # a slice whose first character recurs
         lit = l[i:i + n] or "#"
         at_start, at_end = i == 0, i + n >= len(l)
     elif mode == "word":
@@ -644,7 +1047,7 @@ def _regex_item(draw, rendered):
     atoms = [draw(_atom(ch)) for ch in lit]
     conf = "".join(a[0] for a in atoms)
     ref = "".join(a[1] for a in atoms)
-    if mode == "slice" and len(lit) >= 2 and lit[0] in lit[1:] and draw(tg.die(3)) != 0:
+    if sliced and len(lit) >= 2 and lit[0] in lit[1:] and draw(tg.die(3)) != 0:
         # a numbered back-reference: "(x)...\\1" - group numbers are local to one configured pattern
         j = lit.index(lit[0], 1)
         conf = "(" + atoms[0][0] + ")" + "".join(a[0] for a in atoms[1:j]) + "(?:\\1)" + "".join(a[0] for a in atoms[j + 1:])
@@ -652,7 +1055,7 @@ def _regex_item(draw, rendered):
     anch = draw(tg.die(8))
     if anch == 7 or (at_start and anch >= 4):
         conf, ref = "^" + conf, "^" + ref
-    if anch == 6 or (at_end and anch in (3, 4, 5)):
+    if anch == 6 or (at_end and anch in (3, 4, 5)) or (mode == "suffix" and anch < 3):
         conf, ref = conf + "$", ref + "$"
     alt = draw(tg.die(6))
     if alt == 5:
@@ -668,8 +1071,10 @@ def _regex_item(draw, rendered):
 
 
 @st.composite
-def _patterns(draw, rendered):
-    mode = draw(st.sampled_from([None, None, "plain", "regex", "regex"]))
+def _patterns(draw, rendered, fmt=None):
+    # the legacy remove.conf knows plain patterns only, and only entries without a comma / backslash /
+    # surrounding blanks (rm_admit cuts a slice down to such an entry)
+    mode = draw(st.sampled_from([None, "plain", "plain"] if fmt == "remove.conf" else [None, "regex", "plain", "regex", None]))
     if mode is None:
         return None
     n = draw(st.integers(1, 3))
@@ -682,6 +1087,8 @@ def _patterns(draw, rendered):
                 l = draw(st.sampled_from(rendered))
                 i = draw(st.integers(0, max(len(l) - 1, 0)))
                 items.append(l[i:i + draw(st.sampled_from([3, 4, 5, 6, 8, 2, 1]))] or "#")
+        if fmt == "remove.conf":
+            items = [rm_admit(i) for i in items]
         return {"mode": "plain", "items": items}
     return {"mode": "regex", "items": [draw(_regex_item(rendered)) for _ in range(n)]}
 
@@ -726,27 +1133,92 @@ def _name_source(draw, fqdn):
     return ns
 
 
+# a keyword is whatever string the user wants gone ("R&D#7", "key=value", "O'Neil"): besides the letters (kept
+# from G-Z so that nothing an obfuscator emits contains one) any printable symbol - first of all the ones that
+# mean something to the formats the configuration is written in
+KW_SYMBOLS = list("#;\"'=:,\\") * 2 + list("[]{}()*?|^$+.-_/@<>`") + [" #", " ;", ": ", ", ", " - ", "# "]
+# ... and it is written in the user's language: Latin-1 letters, other scripts, symbols, a character outside the BMP
+LOCAL_WORDS = ["gr\u00f6\u00dfe", "na\u00efve", "\u65e5\u672c\u8a9e", "\u20acuro", "\u0436\u0443\u043a", "se\u00f1al \U0001f511"]
+NON_ASCII = ["\u00dc", "\u00e9", "\u00df", "\u00d8", "\u0416", "\u65e5\u672c", "\u20ac", "\u00a7", "\u2013", "\U0001f511"]
+
+
+@st.composite
+def _widen_keywords(draw, w, fmt):
+    """one symbol or indicator sequence (" #", ": ", ...; rarely two) between two letters of a keyword - never two symbols in a row (X: '::' belongs
+    to the IPv6 recogniser), never at the ends (a keyword is stripped), not in a keyword that also sits inside a
+    host label; remove.conf cannot express ',' and has no documented spelling for a backslash"""
+    syms = [c for c in KW_SYMBOLS if not (fmt == "remove.conf" and ("," in c or "\\" in c))] + NON_ASCII * 2
+    names = [w["fqdn"]] + list(w["hosts"])
+    out = []
+    for k in w["keywords"]:
+        pos = [i for i in range(1, len(k)) if k[i - 1].isalpha() and k[i].isalpha()]
+        if not pos or any(k in n for n in names) or not draw(st.booleans()):
+            out.append(k)
+            continue
+        i = draw(st.sampled_from(pos))
+        k2 = k[:i] + draw(st.sampled_from(syms)) + k[i:]
+        later = [j for j in pos if j >= i + 2]
+        if later and draw(tg.rarely(3)):
+            j = draw(st.sampled_from(later)) + len(k2) - len(k)
+            k2 = k2[:j] + draw(st.sampled_from(syms)) + k2[j:]
+        out.append(k2)
+    w = dict(w)
+    w["keywords"] = out
+    return w
+
+
+@st.composite
+def _conf_style(draw, fmt):
+    eol = draw(st.sampled_from(["\n", "\n", "\n", "\r\n"]))
+    if fmt == "remove.conf":
+        return {"delim": draw(st.sampled_from(RM_DELIMS)),
+                "seps": draw(st.lists(st.sampled_from(sorted(k for k in RM_SEPS)), min_size=1, max_size=3)),
+                "order": draw(tg.die(4)), "extras": draw(st.sampled_from([[], [], ["files"], ["commands", "files"]])),
+                "comments": draw(tg.rarely(3)), "eol": eol, "trail": draw(tg.rarely(4)),
+                "final_newline": not draw(tg.rarely(4))}
+    return {"quote": draw(st.lists(st.sampled_from(["single", "double", "plain"]), min_size=1, max_size=3)),
+            "layout": draw(st.sampled_from(["block0", "block2", "flow"])),
+            "regex_layout": draw(st.sampled_from(["block", "block", "flowmap"])), "order": draw(tg.die(2)),
+            "comments": draw(tg.rarely(3)), "doc_start": draw(tg.rarely(3)), "null_empty": draw(tg.rarely(4)),
+            "eol": eol, "redaction_file": draw(st.sampled_from([None, None, "commands", "empty"]))}
+
+
 @st.composite
 def _case(draw, tier):
     w = recase_world(draw(tg.world()), draw(st.sampled_from(_SHORT_STYLES)), draw(st.sampled_from(_DOMAIN_STYLES)))
+    # how the configuration reaches the cleaner: as a dictionary | through the client's loader from remove.conf /
+    # the YAML redaction files (decided first: the legacy format restricts what an entry can be)
+    fmt = draw(st.sampled_from([None, None, None, "remove.conf", "remove.conf", "yaml", "yaml"]))
+    w = draw(_widen_keywords(w, fmt))
     width = draw(tg.rarely(12))
     big = tier != "quick" and draw(tg.rarely(10))
     lines = draw(tg.content(w, max_lines=8 if big else 5, max_tokens=40 if big else 4, netstat=width))
+    for ln in lines:
+        # spec content is not ASCII only (comments, descriptions, paths in the user's language): a trailing word
+        # behind a blank - what exclusion patterns are sliced from, too
+        if not width and draw(tg.rarely(5)):
+            ln["parts"].append(["fill", draw(st.sampled_from([" ", "\t", ", "])) + draw(st.sampled_from(LOCAL_WORDS))])
     rendered = tg.render(lines)
-    entry = draw(st.sampled_from(["list", "list", "list", "str", "file", "write", "write"]))
+    entry = draw(st.sampled_from(["list", "file", "file", "str", "file", "write", "write", "textfile", "textfile", "write"]))
     obf = {"obfuscate": not draw(tg.rarely(6)), "hostname": not draw(tg.rarely(6)),
            "mac": not draw(tg.rarely(6)), "ipv6": draw(st.booleans())}
     how = draw(st.sampled_from(["none", "none", "none", "none", "real", "real", "random"]))
     no_obf = [] if how == "none" else draw(st.sampled_from(REAL_NO_OBF)) if how == "real" else \
         draw(st.lists(st.sampled_from(OBF_NAMES), min_size=1, max_size=4, unique=True))
     allow = None
-    if entry != "write" and draw(tg.rarely(8)):
+    if entry not in ("write", "textfile") and draw(tg.rarely(8)):
         keys = draw(st.lists(st.sampled_from(["#"] + tg.FILLER_WORDS[:6] + [" "]), min_size=1, max_size=2, unique=True))
         allow = dict((k, draw(st.sampled_from([1, 2, 10000]))) for k in keys)
-    case = {"fqdn": w["fqdn"], "obf": obf, "keywords": w["keywords"], "patterns": draw(_patterns(rendered)),
+    case = {"fqdn": w["fqdn"], "obf": obf, "keywords": w["keywords"], "patterns": draw(_patterns(rendered, fmt)),
             "no_obfuscate": no_obf, "no_redact": draw(tg.rarely(7)), "allowlist": allow,
             "entry": entry, "width": width, "final_newline": not draw(tg.rarely(4)), "lines": lines,
             "name_source": draw(_name_source(w["fqdn"]))}
+    if fmt:
+        case["conf_via"] = {"format": fmt, "style": draw(_conf_style(fmt))}
+    if entry in ("file", "textfile"):
+        # the file's line-ending convention: Unix | DOS | old Mac | several in one file
+        case["eols"] = draw(st.one_of(st.sampled_from([["\n"], ["\r\n"], ["\r\n"], ["\r"], ["\r\n"]]),
+                                      st.lists(st.sampled_from(EOLS), min_size=2, max_size=3)))
     if draw(tg.rarely(4)):
         case["prelude"] = draw(st.sampled_from([list(OBF_NAMES), ["hostname", "ip", "ipv6", "mac"], ["ip"], ["keyword", "password"]]))
     return case
@@ -796,12 +1268,22 @@ REGRESSIONS = [
         _ln(1, [["fill", "db"], ["pw", 'password_hash = "a/b+C=1"', "a/b+C=1"], ["fill", ";"],
                 ["pw", "password --md5 $1$ab/", "$1$ab/"]]),
         _ln(2, [["pw", "passwords==(E0^)", "(E0^)"], ["fill", "\t"], ["ip", "9.8.7.6"]])], entry="str")),
+    Reg("secret-of-equals-signs-only", "clean", _reg([
+        _ln(0, [["fill", "link "], ["pw", "password====", "==="], ["fill", " "]]),
+        _ln(1, [["pw", "password_hash: ===", "==="], ["fill", " to "], ["ip", "9.8.7.6"]])])),
     Reg("regex-posix-midline", "clean", _reg([
         _ln(10, [["fill", "route via "], ["ip", "10.0.0.1"], ["fill", " mtu"]]),
         _ln(11, [["fill", "no hop"]]),
         _ln(12, [["fill", "link is up"]])],
         patterns={"mode": "regex", "items": [{"conf": "via[[:blank:]][[:digit:]]+\\.", "ref": "via[ \\t][0-9]+\\."},
                                              {"conf": "up$", "ref": "up$"}]})),
+    Reg("regex-back-reference-is-local-to-its-pattern", "clean", _reg([
+        _ln(81, [["fill", "unit is up"]]),
+        _ln(82, [["fill", "tx \"sync\" rx"]]),
+        _ln(83, [["fill", "no hop"]])],
+        patterns={"mode": "regex", "items": [{"conf": "(never|zzqx)", "ref": "(never|zzqx)"},
+                                             {"conf": "(\\#)81(?:\\1)", "ref": "(\\#)81(?:\\1)"},
+                                             {"conf": "([\"'])[[:lower:]]+\\1", "ref": "([\"'])[a-z]+\\1"}]})),
     Reg("loopback-next-to-its-suffix", "clean", _reg([
         _ln(0, [["fill", "tcp 0 0 "], ["ip", "127.0.0.1"], ["fill", ":22   "], ["ip", "27.0.0.1"], ["fill", ":22 LISTEN"]])])),
     Reg("system-name-from-os-capitals", "clean", _reg([
@@ -811,6 +1293,46 @@ REGRESSIONS = [
         fqdn="NAS-7.Lab.Rhtest.NET", entry="file",
         name_source={"gethostname": "short", "getfqdn": "fqdn", "byname": "gaierror", "arg": "omitted",
                      "display_name": "shown-as-zq7"})),
+    Reg("dos-and-mac-line-endings-anchored-patterns", "clean", _reg([
+        _ln(30, [["fill", "link is up"]]),
+        _ln(31, [["fill", "route via "], ["ip", "172.16.9.1"], ["fill", " mtu"]]),
+        _ln(32, [["fill", "up to now"]]),
+        _ln(33, [["fill", "no hop "]], "end")],
+        entry="file", eols=["\r\n", "\r", "\n"], final_newline=False,
+        patterns={"mode": "regex", "items": [{"conf": "[[:lower:]]p$", "ref": "[a-z]p$"}, {"conf": "^\\#32", "ref": "^\\#32"},
+                                             {"conf": "\\#33\\#$", "ref": "\\#33\\#$"}]})),
+    Reg("text-file-provider-dos-file", "clean", _reg([
+        _ln(40, [["fill", "inet "], ["ip", "192.168.1.77"], ["fill", "/24 brd"]]),
+        _ln(41, [["short", "web01"], ["fill", " is up"]], "end")],
+        entry="textfile", eols=["\r\n"], patterns={"mode": "regex", "items": [{"conf": "brd$", "ref": "brd$"}]})),
+    Reg("remove-conf-format-characters", "clean", _reg([
+        _ln(50, [["fill", "unit "], ["kw", "R&P#K"], ["fill", " ("], ["kw", "O'NIL"], ["fill", ") "], ["kw", "KY=VX"],
+                 ["fill", "; "], ["kw", 'SY "HI"'], ["fill", " ;"], ["kw", ";TOP"]]),
+        _ln(51, [["fill", "ticket#rx lost"]]),
+        _ln(52, [["fill", "in sync"]])],
+        keywords=["R&P#K", "O'NIL", "KY=VX", 'SY "HI"', ";TOP"], patterns={"mode": "plain", "items": ["#51#", "zzqx", "never#x"]},
+        conf_via={"format": "remove.conf", "style": {"delim": ": ", "seps": ["cont", "wide", "cont-tab"], "order": 1,
+                                                     "extras": ["commands", "files"], "comments": True, "eol": "\r\n",
+                                                     "trail": True, "final_newline": False}})),
+    # fixed by 2ce5af1: the legacy loader decoded the UTF-8 bytes of a value as unicode-escape (= Latin-1), so
+    # 'Z\u00fcrich' was looked for as 'Z\u00c3\u00bcrich' and every non-ASCII keyword / pattern stayed in the output
+    Reg("remove-conf-non-ascii-entries", "clean", _reg([
+        _ln(70, [["raw", "ort "], ["kw", "Z\u00fcrich"], ["raw", " "], ["kw", "plain"]]),
+        _ln(71, [["raw", "x geheim-\u00f6 y"]]),
+        _ln(72, [["raw", "ok "], ["kw", "\u0416\u0423\u041a"], ["raw", " "], ["kw", "K\U0001f511Y"]])],
+        keywords=["Z\u00fcrich", "plain", "\u0416\u0423\u041a", "K\U0001f511Y"], patterns={"mode": "plain", "items": ["geheim-\u00f6"]},
+        conf_via={"format": "remove.conf", "style": {"delim": "=", "seps": ["tight"], "eol": "\n"}})),
+    Reg("yaml-quoting-styles", "clean", _reg([
+        _ln(60, [["fill", "zone "], ["kw", "NO"], ["fill", " / "], ["kw", "G: H"], ["fill", " / "], ["kw", "X #Y"], ["fill", " / "],
+                 ["kw", "[ON]"], ["fill", " / "], ["kw", "IT'S"]]),
+        _ln(61, [["fill", "slot, queue"]]),
+        _ln(62, [["fill", "timer ring"]])],
+        keywords=["NO", "G: H", "X #Y", "[ON]", "IT'S"],
+        patterns={"mode": "regex", "items": [{"conf": "t, [[:lower:]]+$", "ref": "t, [a-z]+$"}, {"conf": "never|zzqx", "ref": "never|zzqx"}]},
+        entry="write",
+        conf_via={"format": "yaml", "style": {"quote": ["plain", "single", "double"], "layout": "flow", "regex_layout": "flowmap",
+                                              "order": 1, "comments": True, "doc_start": True, "eol": "\n",
+                                              "redaction_file": "commands"}})),
     Reg("no-redact-still-obfuscates", "clean", _reg([
         _ln(5, [["fill", "hop "], ["ip", "192.168.1.77"], ["fill", " "], ["short", "web01"]])],
         no_redact=True, patterns={"mode": "plain", "items": ["hop"]}, entry="write")),
